@@ -275,6 +275,23 @@ func TestVerifC13Wiring(t *testing.T) {
 	res.Sample(map[string]any{"side": "inbound", "method": "/temporal.api.workflowservice.v1.WorkflowService/DescribeNamespace"})
 }
 
+// C12 (wiring): with a namespace mapping configured on a real ClusterConnection, what leaves the proxy on either server,
+// in either direction, holds the mapped names.
+func TestVerifC12Wiring(t *testing.T) {
+	res := vrt.NewResult("C12", "exploration")
+	defer func() {
+		if err := res.Write(); err != nil {
+			t.Fatal(err)
+		}
+	}()
+	evals, nontrivial := vfDirectionRun(res, "ns")
+	res.Set("evaluations", evals)
+	res.Set("distinct_nontrivial", nontrivial)
+	res.Set("direction_calls", evals)
+	res.Set("wiring_rule", "wiring: every unary method of both services, fully populated request and response, through both servers of a real ClusterConnection with a namespace mapping (alone and together with a search-attribute mapping): the backend sees the request, and the caller the response, that the reference translation produces")
+	res.Sample(map[string]any{"side": "inbound", "method": "/temporal.api.workflowservice.v1.WorkflowService/DescribeNamespace"})
+}
+
 func TestVerifC14Wiring(t *testing.T) {
 	res := vrt.NewResult("C14", "exploration")
 	defer func() {
